@@ -383,6 +383,9 @@ func (g *Gen) Mutate(sp *Spec) string {
 	for _, d := range sp.Defs {
 		defs = append(defs, d.Name)
 	}
+	if g.R.Chance(1, 8) {
+		return g.editExt(sp)
+	}
 	k := g.R.Intn(100)
 	switch {
 	case k < 8:
